@@ -11,6 +11,8 @@ import ast
 import itertools
 import math
 import operator
+import os
+import types
 from functools import reduce
 
 from .ql import Unknown
@@ -41,13 +43,17 @@ BIN = {ast.Add: operator.add, ast.Sub: operator.sub, ast.Mult: operator.mul, ast
        ast.Pow: operator.pow}
 CMP = {ast.Eq: operator.eq, ast.NotEq: operator.ne, ast.Lt: operator.lt, ast.LtE: operator.le, ast.Gt: operator.gt, ast.GtE: operator.ge,
        ast.In: lambda a, b: a in b, ast.NotIn: lambda a, b: a not in b, ast.Is: operator.is_, ast.IsNot: operator.is_not}
-FUNCS = {"len": len, "abs": abs, "range": range, "list": list, "tuple": tuple, "sorted": sorted, "sum": sum, "min": min, "max": max,
+PYEXC = (IndexError, KeyError, AttributeError, ValueError, TypeError, ZeroDivisionError, StopIteration)
+FUNCS = {"str": str, "dict": dict, "os.path.splitext": os.path.splitext, "splitext": os.path.splitext, "os.path.basename": os.path.basename,
+         "isinstance": isinstance, "hasattr": hasattr, "getattr": getattr, "repr": repr, "next": next, "iter": iter,
+         "len": len, "abs": abs, "range": range, "list": list, "tuple": tuple, "sorted": sorted, "sum": sum, "min": min, "max": max,
          "zip": zip, "enumerate": enumerate, "int": int, "bool": bool, "any": any, "all": all, "reversed": reversed, "set": set,
          "divmod": divmod, "ceil": math.ceil, "floor": math.floor, "math.ceil": math.ceil, "math.floor": math.floor,
          "prod": math.prod, "math.prod": math.prod, "combinations": itertools.combinations, "itertools.combinations": itertools.combinations,
          "permutations": itertools.permutations, "product": itertools.product, "itertools.product": itertools.product,
          "mul": operator.mul, "operator.mul": operator.mul, "isgenerator": lambda x: False}
-METHODS = {"count", "index", "copy", "bit_length"}
+METHODS = {"count", "index", "copy", "bit_length", "get", "items", "keys", "values", "lower", "upper", "endswith", "startswith", "split",
+           "rsplit", "strip", "lstrip", "rstrip", "format", "join", "splitlines", "replace", "find", "rfind", "isdigit", "partition", "rpartition"}
 MUTATING = {"append", "extend", "insert", "pop", "remove", "sort", "reverse"}
 
 
@@ -61,7 +67,7 @@ class Folder:
 
     def __init__(self, env=None, sinks=(), helpers=None, fuel=20000, methods=None):
         self.env = dict(env or {})
-        self.sinks = set(sinks)
+        self.sinks = sinks if isinstance(sinks, dict) else set(sinks)
         self.effects = []
         self.helpers = dict(helpers or {})       # name -> ast.FunctionDef of pure local / module-level helpers
         self.methods = dict(methods or {})       # name -> ast.FunctionDef of methods reachable as self.<name>(..)
@@ -114,6 +120,8 @@ class Folder:
                 return {"True": True, "False": False, "None": None}[e.id]
             if e.id in FUNCS:
                 return FUNCS[e.id]
+            if e.id in ("int", "float", "list", "tuple", "dict", "set", "bool", "str", "type"):
+                return {"int": int, "float": float, "list": list, "tuple": tuple, "dict": dict, "set": set, "bool": bool, "str": str, "type": type}[e.id]
             raise Unknown("free name %s" % e.id)
         if isinstance(e, ast.UnaryOp):
             v = self.ev(e.operand)
@@ -175,8 +183,23 @@ class Folder:
                 return v[lo:hi:st]
             try:
                 return v[self.ev(e.slice)]
-            except (IndexError, KeyError, TypeError) as x:
+            except (IndexError, KeyError) as x:
+                raise Raised(type(x).__name__)
+            except TypeError as x:
                 raise Unknown("subscript: %s" % x)
+        if isinstance(e, ast.Attribute):
+            v = self.ev(e.value)
+            if isinstance(v, types.SimpleNamespace):
+                if hasattr(v, e.attr):
+                    return getattr(v, e.attr)
+                raise Raised("AttributeError")
+            if isinstance(v, (str, int, list, tuple, dict)) and not hasattr(v, e.attr):
+                raise Raised("AttributeError")
+            raise Unknown("attribute %s" % _name(e))
+        if isinstance(e, ast.Dict):
+            return {self.ev(k): self.ev(v) for k, v in zip(e.keys, e.values) if k is not None}
+        if isinstance(e, ast.JoinedStr):
+            raise Unknown("f-string")
         if isinstance(e, (ast.ListComp, ast.GeneratorExp, ast.SetComp)):
             out = []
             saved = dict(self.env)
@@ -206,8 +229,12 @@ class Folder:
             else:
                 args.append(self.ev(a))
         kw = {k.arg: self.ev(k.value) for k in c.keywords if k.arg}
-        if isinstance(c.func, ast.Attribute) and c.func.attr in self.sinks:
-            self.effects.append((c.func.attr, [list(a) if isinstance(a, (list, tuple)) else a for a in args], {k: v for k, v in kw.items() if k != "check"}))
+        sname = c.func.attr if isinstance(c.func, ast.Attribute) else (c.func.id if isinstance(c.func, ast.Name) else None)
+        if sname in self.sinks and not (isinstance(c.func, ast.Name) and sname in self.env):
+            rec = (sname, [list(a) if isinstance(a, (list, tuple)) else a for a in args], {k: v for k, v in kw.items() if k != "check"})
+            self.effects.append(rec)
+            if isinstance(self.sinks, dict) and callable(self.sinks[sname]):
+                return self.sinks[sname](*args, **kw)
             return None
         if isinstance(c.func, ast.Attribute) and _name(c.func.value) == "self" and c.func.attr in self.methods:
             return self.call_function(self.methods[c.func.attr], [self.env.get("self")] + args, kw)
@@ -240,17 +267,25 @@ class Folder:
             except TypeError as x:
                 raise Unknown(str(x))
         if fn in FUNCS:
+            if fn == "isinstance" and len(args) == 2 and not isinstance(args[1], (type, tuple)):
+                raise Unknown("isinstance against a repository class")
             try:
                 v = FUNCS[fn](*args, **kw)
-            except (TypeError, ValueError) as x:
-                raise Unknown("%s: %s" % (fn, x))
+            except PYEXC as x:
+                raise Raised(type(x).__name__)
             return list(v) if fn in ("zip", "enumerate", "reversed", "combinations", "itertools.combinations", "permutations", "product",
                                      "itertools.product", "range") and not isinstance(v, range) else v
         if isinstance(c.func, ast.Attribute):
             recv = self.ev(c.func.value)
             m = c.func.attr
-            if m in METHODS and isinstance(recv, (list, tuple, int, str)):
-                return getattr(recv, m)(*args)
+            if isinstance(recv, types.SimpleNamespace) and callable(getattr(recv, m, None)):
+                return getattr(recv, m)(*args, **kw)
+            if m in METHODS and isinstance(recv, (list, tuple, int, str, dict)) and hasattr(recv, m):
+                try:
+                    v = getattr(recv, m)(*args, **kw)
+                except PYEXC as x:
+                    raise Raised(type(x).__name__)
+                return list(v) if m in ("items", "keys", "values") else v
             if m in MUTATING and isinstance(recv, list):
                 return getattr(recv, m)(*args)
         raise Unknown("call %s" % fn)
@@ -261,8 +296,20 @@ class Folder:
             self.env[target.id] = value
         elif isinstance(target, (ast.Tuple, ast.List)):
             vals = list(value)
+            star = [i for i, t in enumerate(target.elts) if isinstance(t, ast.Starred)]
+            if len(star) == 1:
+                i = star[0]
+                after = len(target.elts) - i - 1
+                if len(vals) < len(target.elts) - 1:
+                    raise Raised("ValueError")
+                for t, v in zip(target.elts[:i], vals[:i]):
+                    self.assign(t, v)
+                self.assign(target.elts[i].value, vals[i:len(vals) - after])
+                for t, v in zip(target.elts[i + 1:], vals[len(vals) - after:]):
+                    self.assign(t, v)
+                return
             if len(vals) != len(target.elts):
-                raise Unknown("unpacking")
+                raise Raised("ValueError")
             for t, v in zip(target.elts, vals):
                 self.assign(t, v)
         elif isinstance(target, ast.Subscript):
@@ -327,6 +374,30 @@ class Folder:
                 raise _Break()
             elif isinstance(s, ast.Return):
                 raise _Return(self.ev(s.value) if s.value is not None else None)
+            elif isinstance(s, ast.Try):
+                try:
+                    self.run(s.body)
+                except Raised as r:
+                    handled = False
+                    for h in s.handlers:
+                        names = [] if h.type is None else [_name(t) for t in (h.type.elts if isinstance(h.type, ast.Tuple) else [h.type])]
+                        if h.type is None or r.cls in names or "Exception" in names or \
+                                (r.cls in ("IndexError", "KeyError") and "LookupError" in names) or \
+                                (r.cls in ("FileNotFoundError", "PermissionError") and ("OSError" in names or "IOError" in names)):
+                            if h.name:
+                                self.env[h.name] = types.SimpleNamespace(cls=r.cls)
+                            handled = True
+                            try:
+                                self.run(h.body)
+                            finally:
+                                self.run(s.finalbody)
+                            break
+                    if not handled:
+                        self.run(s.finalbody)
+                        raise
+                else:
+                    self.run(s.orelse)
+                    self.run(s.finalbody)
             elif isinstance(s, ast.Raise):
                 e = s.exc.func if isinstance(s.exc, ast.Call) else s.exc
                 raise Raised(_name(e) if e is not None else "")
